@@ -6,6 +6,7 @@ the protocol lines as regression cases in corpus/C13/.  A current witness would 
 adminHandler on every run; the oracle of the harness must still flag it (KNOWN-FINDING).
 -/
 import CaddyModel.C13.Lemmas
+import CaddyModel.C13.Lifecycle
 
 namespace CaddyModel.C13
 
@@ -73,5 +74,16 @@ theorem permissions_sticky_path_flag_fails :
     ∃ (perms : List Perm) (m p : Bytes),
       permsCheckSticky m p perms false = .allow ∧ permsCheck m p perms = .pathDenied :=
   ⟨[⟨none, some [str "/config/"]⟩, ⟨none, some [str "/id/"]⟩], str "GET", str "/config/x", by decide⟩
+
+/-- the lifecycle variant with the "remote administration not configured" guard merged in front of
+    the `defer` (`replaceRemoteMerged`) is NOT the lifecycle of the code: after "remote on with key
+    0, then remote off" it leaves the first server listening, still serving key 0, whereas the real
+    step leaves nothing — where the guard stands matters. -/
+theorem remote_merged_guard_fails :
+    ∃ hist : List LoadCfg,
+      (hist.getLast?.map (·.remote)) = some none ∧
+      (afterHistory hist).liveRemote = [] ∧
+      ∃ srv ∈ (hist.foldl loadMerged Life.init).liveRemote, keyAnswer srv.acl 0 = 's' :=
+  ⟨[⟨.listen 0, some (2, [⟨[0], []⟩])⟩, ⟨.listen 0, none⟩], by decide⟩
 
 end CaddyModel.C13
